@@ -58,7 +58,7 @@ def cases(draw, convs=S.ALL_CONVS):
             var["nan"] = sorted(set(draw(st.lists(st.integers(0, n_faces - 1), max_size=3))))
         variables.append(var)
     spec["vars"] = variables
-    spec["mode"] = "raw"
+    spec["mode"] = draw(st.sampled_from(["raw", "raw", "dask", "file"]))
     return {
         "spec": spec,
         "given": draw(st.sampled_from(["name", "array", "derived", "none"])),
